@@ -40,6 +40,14 @@ def population(hv, tier, sd, pops, per_pop):
             got = long_runs(random.Random(sd * 37 + 3), n)
         elif pop == "Q":
             got = edge_moves(random.Random(sd * 41 + 9), n)
+        elif pop == "F":
+            got = loopform_cases(n)
+        elif pop == "Y":
+            got = body_cycles(random.Random(sd * 47 + 13), n)
+        elif pop == "U":
+            got = far_conditionals(random.Random(sd * 53 + 17), n)
+        elif pop == "Z":
+            got = padded_programs(random.Random(sd * 59 + 19), n)
         else:
             got = bf.gen_cases(hv, pop, sd, n)
         cases += got
@@ -49,6 +57,8 @@ def population(hv, tier, sd, pops, per_pop):
         if "w" not in c:
             if c["pop"] == "L":
                 c["w"] = rng.choice([64, 64, 64, 64, 64, 32])
+            elif c["pop"] == "F":        # nested idioms only finish within the caps when nothing wraps
+                c["w"] = rng.choice([8, 8, 8, 16, 32, 64])
             elif c["pop"] == "D":        # wrap-around cycles are only short enough to prove at 8 bit
                 c["w"] = rng.choice([8, 8, 8, 8, 8, 8, 16, 32, 64])
             else:
@@ -94,6 +104,121 @@ def edge_moves(rng, n):
         for o in offs:
             b.out(o)
         out.append({"pop": "Q", "prog": b.text(), "input": inputs})
+    return out
+
+
+def body_cycles(rng, n):
+    """Population Y: inside the body of a loop or conditional whose cells the optimiser knows nothing about
+    (they were read before a scan or come straight from the input of an earlier iteration), values are rotated
+    through a cycle of 2-4 cells (one simultaneous assignment once optimised), one of them is touched and
+    printed so that the cycle has to be emitted, and then cells are copied onto each other - so that what the
+    optimiser remembers about each member of the cycle is compared with values it sees later - and printed."""
+    from .heavy import B
+    out = []
+    for _ in range(n):
+        b = B()
+        k = rng.randint(2, 4)
+        cells = list(range(k))
+        t = k                                         # scratch
+        extra = k + 1                                 # copy target outside the cycle
+        cond = k + 2
+        inputs = [rng.randint(1, 15) for _ in range(k)]
+        for i in cells:
+            b.inp(i)
+        mode = rng.randrange(3)
+        if mode == 0:                                 # conditional on the first cell itself (cleared at the end)
+            b.go(0)
+            b.raw("[")
+        elif mode == 1:                               # conditional on a separate flag
+            b.const(cond, 1)
+            b.raw("[")
+        else:                                         # a counted loop of 1-3 rounds
+            b.const(cond, rng.randint(1, 3))
+            b.raw("[")
+
+        def move(src, dst):
+            b.mulmove(src, [(dst, 1)])
+
+        def copy(src, dst):
+            b.clear(dst)
+            b.clear(t)
+            b.mulmove(src, [(dst, 1), (t, 1)])
+            b.mulmove(t, [(src, 1)])
+        rounds = rng.randint(1, 2)
+        for _r in range(rounds):
+            cyc = rng.sample(cells, rng.randint(2, k))
+            b.clear(t)
+            move(cyc[0], t)                           # t = c0; c0 = c1; ...; c_last = t
+            for a, nx in zip(cyc, cyc[1:]):
+                move(nx, a)
+            move(t, cyc[-1])
+            x = rng.choice(cyc)
+            b.go(x)
+            b.raw(rng.choice(["+", "-", "++"]))
+            if rng.random() < 0.8:
+                b.out(x)
+            for _c in range(rng.randint(1, 3)):
+                src = rng.choice(cells)
+                dst = rng.choice([c for c in cells + [extra] if c != src])
+                copy(src, dst)
+                if rng.random() < 0.7:
+                    b.out(dst)
+        for i in rng.sample(cells + [extra], rng.randint(1, k)):
+            b.out(i)
+        if mode == 0:
+            b.clear(0)
+            b.raw("]")
+        elif mode == 1:
+            b.clear(cond)
+            b.raw("]")
+        else:
+            b.go(cond)
+            b.raw("-]")
+        for i in cells + [extra]:
+            b.out(i)
+        out.append({"pop": "Y", "prog": b.text(), "input": inputs})
+    return out
+
+
+def far_conditionals(rng, n):
+    """Population U: loops that the optimiser can prove to run at most once because their body ends in a scan
+    or a move onto a cell that is zero - conditionals - whose condition cell nothing else in the program
+    touches and that lies further out than every other access (the access window has to contain it because
+    of the branch alone); some are taken at run time, most are not."""
+    out = []
+    for _ in range(n):
+        d1 = rng.choice("<>")
+        d2 = ">" if d1 == "<" else "<"
+        a = rng.randint(1, 6)
+        back = rng.randint(0, min(a, 3))
+        ops = rng.choice([".", "+.", "-.", ",.", ".+", "", "+"])
+        scan = "[" + rng.choice([d1, d1, d2]) * rng.randint(1, 2) + "]"
+        ending = rng.choice([scan, scan, d1 * rng.randint(1, 3), scan + d2])
+        cond_body = "[" + d2 * back + ops + ending + "]"
+        pre = rng.choice([",", ",>,<", "+", ",>+<", ""])
+        if rng.random() < 0.25:                       # the condition cell is written once, far away, so it is taken
+            pre = d1 * a + "+" + d2 * a + pre
+        inner = d1 * a + cond_body + d2 * rng.randint(0, a) + rng.choice([".", "", "+."])
+        if rng.random() < 0.6:
+            prog = pre + "[" + inner + rng.choice([">,", ",", "[-]", "<,"]) + "]" + "."
+        else:
+            prog = pre + inner + "."
+        out.append({"pop": "U", "prog": prog, "input": [rng.randint(1, 9) for _ in range(rng.randint(0, 3))]})
+    return out
+
+
+def padded_programs(rng, n):
+    """Population Z: small looping programs inside more than 64 KiB of non-command text (in front, directly
+    behind a '[', inside a loop body, between two loops): positions, jump distances and loop-stack entries
+    beyond 16 bits.  The back ends get the padded text, the specification the text without the padding."""
+    base = ["++[>+++<-]>.", ",[.,]", "++[>++[>+<-]<-]>>.", "+++[>,.<-]", ",[>+>+<<-]>.>.", "+[>+++[>++<-]<-]>>.",
+            "++>+++<[>[>+>+<<-]>>[<<+>>-]<<<-]>>.", ",>,<[>[>+>+<<-]>[<+>-]<<-]>>>."]
+    out = []
+    for _ in range(n):
+        p = rng.choice(base)
+        spots = [0] + [i + 1 for i, ch in enumerate(p) if ch in "[]"] + [i for i, ch in enumerate(p) if ch == "]"]
+        out.append({"pop": "Z", "prog": p, "input": [rng.randint(1, 5) for _ in range(3)],
+                    "pad": rng.choice([65530, 65536, 65540, 70000, 131072, 200000]), "padAt": rng.choice(spots)})
     return out
 
 
@@ -181,6 +306,48 @@ def exhaustive_cases(limit):
     return out
 
 
+_F_CACHE = []
+
+
+def loopform_cases(limit):
+    """Population F: the counting-loop idioms of LoopForms.tla (linear, triangular in both statement orders,
+    geometric; counter known to the optimiser or read from the input) over a parameter grid, generated by
+    TLC from the specification (GEN = 1), one Brainfuck text per case."""
+    from . import tlc
+    if not _F_CACHE:
+        res = tlc.run_tlc("LoopForms", cfg="LoopFormsGen", env={"MAXW": 3, "GEN": 1, "MUT": 0}, workers=8, timeout=900)
+        recs = [r for r in res.records if "form" in r]
+        if not recs:
+            raise ToolError("LoopForms.tla generated no case\n" + res.raw_tail)
+        recs.sort(key=lambda r: (r["form"], r["ctr"], r["known"], r["m"], r["inc"], r["a"], r["b"], r["x0"]))
+        _F_CACHE.append(recs)
+    recs = _F_CACHE[0]
+    if len(recs) > limit:
+        recs = random.Random(seed() * 43 + 11).sample(recs, limit)
+    return [{"pop": "F", "prog": r["prog"], "input": r["input"]} for r in recs]
+
+
+def design_check_loopforms(rep, tier):
+    """LoopForms.tla: the optimiser's loop algebra (trip counts by 2-adic division / modular inverse, linear,
+    triangular and geometric closed forms as coded in opt.rs) against the step-by-step run of the same
+    loops, every parameter combination at the widths 1..MAXW."""
+    from . import tlc
+    from .common import NCPU
+    maxw = 3 if tier == "quick" else 4
+    res = tlc.run_tlc("LoopForms", env={"MAXW": maxw, "GEN": 0, "MUT": 0}, workers=max(2, NCPU - 2), timeout=3000,
+                      coverage=True, allow_violation=True)
+    rep.add_tlc(res)
+    rep.coverage["optimiser_loop_algebra"] = {
+        "module": "LoopForms.tla", "widths": list(range(1, maxw + 1)), "distinct_states": res.distinct,
+        "forms": ["lin", "triA", "triB", "geo"], "counter": ["known", "read from input"],
+        "counter_update": ["step (c += inc)", "set (c := inc)"],
+        "checked": ["TripOK", "UnknownOnlyWhenEvenStep", "LinOK", "TriOK", "GeoOK", "Classified"],
+        "actions": {k: v for k, v in res.coverage.items() if k in ("Pick1", "Pick2", "Iterate", "Exit", "Spin")}}
+    if res.violated:
+        raise ToolError("LoopForms: the transcribed loop algebra disagrees with the step-by-step run (%s)\n%s" % (
+            res.violated, res.raw_tail))
+
+
 def override_cases():
     """VERIF_CASES=<ndjson file of {prog,input,w}> (also set by --replay) replaces
     the generated population."""
@@ -193,7 +360,8 @@ def override_cases():
             c = json.loads(l)
             c = c.get("witness", c)
             out.append({"id": "X%d" % i, "pop": "X", "prog": c["prog"], "input": c.get("input", []),
-                        "w": c.get("w", 8), "accel": c.get("accel", 0)})
+                        "w": c.get("w", 8), "accel": c.get("accel", 0), "pad": c.get("pad", 0),
+                        "padAt": c.get("padAt", 0)})
     return out
 
 
@@ -735,10 +903,10 @@ def _offsets(body):
 
 
 def c04(tier):
-    per = {"E": 40000, "rnd": 1200, "S": 1200, "T": 300, "R": 300, "M": 600, "P": 120} if tier == "quick" else \
-          {"E": 300000, "rnd": 20000, "S": 20000, "T": 3000, "R": 400, "M": 8000, "N": 2000, "P": 2000}
+    per = {"E": 40000, "rnd": 1200, "S": 1200, "T": 300, "R": 300, "M": 600, "P": 120, "Z": 60} if tier == "quick" else \
+          {"E": 300000, "rnd": 20000, "S": 20000, "T": 3000, "R": 400, "M": 8000, "N": 2000, "P": 2000, "Z": 600}
     return run_equivalence("C04", tier, lambda c: [{"backend": "inplace", "level": 0}],
-                           ["E", "rnd", "S", "T", "R", "M", "N", "P"], per,
+                           ["E", "rnd", "S", "T", "R", "M", "N", "P", "Z"], per,
                            adjudicate_max=3000 if tier == "quick" else 400000, before=design_check_bf,
                            comment_share=0.08)
 
@@ -746,33 +914,33 @@ def c04(tier):
 def c01(tier):
     levels = [0, 1, 2, 3, 4, 7]
     per = {"E": 6000, "rnd": 3000, "S": 6000, "R": 300, "M": 2000, "N": 500, "L": 1500, "G": 1500, "I": 400,
-           "W": 600, "P": 40, "Q": 300} if tier == "quick" else \
+           "W": 600, "P": 40, "Q": 300, "F": 4000, "Y": 1500, "Z": 30} if tier == "quick" else \
         {"E": 60000, "rnd": 60000, "S": 150000, "R": 400, "M": 40000, "N": 10000, "L": 40000, "G": 30000, "I": 8000,
-         "W": 12000, "P": 800, "Q": 6000}
+         "W": 12000, "P": 800, "Q": 6000, "F": 50000, "Y": 30000, "Z": 300}
     return run_equivalence("C01", tier, lambda c: [{"backend": "irint", "level": l} for l in levels],
-                           ["E", "rnd", "S", "R", "M", "N", "L", "G", "I", "W", "P", "Q"], per,
+                           ["E", "rnd", "S", "R", "M", "N", "L", "G", "I", "W", "P", "Q", "F", "Y", "Z"], per,
                            adjudicate_max=2500 if tier == "quick" else 80000, comment_share=0.02,
-                           heavy=150 if tier == "quick" else 3000)
+                           heavy=150 if tier == "quick" else 3000, before=design_check_loopforms)
 
 
 def c02(tier):
     per = {"E": 6000, "rnd": 2000, "S": 4000, "R": 300, "M": 1500, "N": 800, "T": 200, "L": 1500, "I": 600, "G": 600,
-           "W": 2500, "P": 40} if tier == "quick" else \
+           "W": 2500, "P": 40, "F": 1500, "Y": 600, "U": 600, "Z": 30} if tier == "quick" else \
         {"E": 60000, "rnd": 40000, "S": 100000, "R": 400, "M": 30000, "N": 20000, "T": 2000, "L": 40000, "I": 12000,
-         "G": 12000, "W": 8000, "P": 800}
+         "G": 12000, "W": 8000, "P": 800, "F": 50000, "Y": 10000, "U": 10000, "Z": 300}
     return run_equivalence("C02", tier, lambda c: [{"backend": "bcint", "level": l} for l in range(4)],
-                           ["E", "rnd", "S", "R", "M", "N", "T", "L", "I", "G", "W", "P"], per, profiles=("release", "debug"),
+                           ["E", "rnd", "S", "R", "M", "N", "T", "L", "I", "G", "W", "P", "F", "Y", "U", "Z"], per, profiles=("release", "debug"),
                            adjudicate_max=5000 if tier == "quick" else 120000, comment_share=0.02,
                            heavy=150 if tier == "quick" else 3000)
 
 
 def c03(tier):
     per = {"E": 6000, "rnd": 2000, "S": 4000, "R": 300, "M": 1500, "N": 2500, "T": 200, "L": 8000, "I": 600, "G": 600,
-           "W": 2500, "P": 40} if tier == "quick" else \
+           "W": 2500, "P": 40, "F": 1500, "Y": 600, "U": 600, "Z": 30} if tier == "quick" else \
         {"E": 60000, "rnd": 40000, "S": 100000, "R": 400, "M": 30000, "N": 60000, "T": 2000, "L": 120000, "I": 12000,
-         "G": 12000, "W": 8000, "P": 800}
+         "G": 12000, "W": 8000, "P": 800, "F": 50000, "Y": 10000, "U": 10000, "Z": 300}
     return run_equivalence("C03", tier, lambda c: [{"backend": "jit", "level": l} for l in range(4)],
-                           ["E", "rnd", "S", "R", "M", "N", "T", "L", "I", "G", "W", "P"], per,
+                           ["E", "rnd", "S", "R", "M", "N", "T", "L", "I", "G", "W", "P", "F", "Y", "U", "Z"], per,
                            adjudicate_max=2500 if tier == "quick" else 80000, comment_share=0.02,
                            heavy=300 if tier == "quick" else 6000)
 
@@ -948,9 +1116,9 @@ def c05(tier):
     bins = build_harness(("release",))
     hv = bins["release"]
     sd = seed()
-    per = {"D": 1200, "R": 250, "E": 6000, "M": 1500, "S": 300, "W": 3000} if tier == "quick" else \
-          {"D": 4000, "R": 400, "E": 60000, "M": 8000, "S": 3000, "rnd": 3000, "W": 40000}
-    pops, per = dev_pops(["D", "R", "E", "M", "S", "rnd", "W"], per)
+    per = {"D": 1200, "R": 250, "E": 6000, "M": 1500, "S": 300, "W": 3000, "F": 2500} if tier == "quick" else \
+          {"D": 4000, "R": 400, "E": 60000, "M": 8000, "S": 3000, "rnd": 3000, "W": 40000, "F": 50000}
+    pops, per = dev_pops(["D", "R", "E", "M", "S", "rnd", "W", "F"], per)
     cases = override_cases() or population(hv, tier, sd, pops, per)
     refs = pool.simple_requests(hv, [{"op": "ref", "id": c["id"], "prog": c["prog"], "w": c["w"],
                                       "input": c["input"], "maxSteps": 5000, "maxEv": 250} for c in cases])
@@ -1074,10 +1242,11 @@ PRE_PROGRAMS = ["+-", ">+-<", "<+-> ", ">>>+-<<<", "<<+->>+-", "+->+-<"]
 
 def c06_runs(tier, rep, bins):
     hv = bins["release"]
-    per = {"T": 900, "S": 300, "N": 100, "rnd": 300, "M": 200, "W": 600, "K": 200, "Q": 300} if tier == "quick" else \
-          {"T": 20000, "S": 8000, "N": 3000, "rnd": 6000, "E": 60000, "M": 4000, "W": 12000, "K": 4000, "Q": 6000}
+    per = {"T": 900, "S": 300, "N": 100, "rnd": 300, "M": 200, "W": 600, "K": 200, "Q": 300, "U": 300} if tier == "quick" else \
+          {"T": 20000, "S": 8000, "N": 3000, "rnd": 6000, "E": 60000, "M": 4000, "W": 12000, "K": 4000, "Q": 6000,
+           "U": 6000}
     sd = seed()
-    pops, per = dev_pops(["T", "S", "N", "rnd", "E", "M", "W", "K", "Q"], per)
+    pops, per = dev_pops(["T", "S", "N", "rnd", "E", "M", "W", "K", "Q", "U"], per)
     cases = override_cases() or population(hv, tier, sd, pops, per)
 
     def runs_release(c):
